@@ -199,6 +199,9 @@ func (r *runner) generate() {
 	// ---------------- @rx captures ----------------
 	r.genRx(rng)
 
+	// ---------------- captures over a non-empty prior TX.0-9 ----------------
+	r.genCapSeq(rng)
+
 	// ---------------- ParseOperator ----------------
 	r.genParse(rng)
 
@@ -736,4 +739,75 @@ func (r *runner) genDatasetWAFs(rng *rand.Rand) {
 			}
 		}
 	}
+}
+
+// capture patterns: groups that all participate, optional groups and alternation branches that
+// do not participate, more than ten groups, nested groups
+var capPatterns = []string{
+	"(a)(b)(c)", "(a)(b)(c)(d)(e)", "^(.)(.)(.)(.)(.)(.)(.)(.)(.)(.)(.)?", "(a)|(b)", "(a)|(b)|(c)", "(x)?y", "(a)(b)?(c)", "(?:(a)|(b))(c)?",
+	"^(a)?(b)?(c)?(d)?(e)?(f)?(g)?(h)?(i)?(j)?(k)?$", "((a)|(b))+", "(a*)(b*)", "(a)", "a", "(\\w+)-(\\d+)?-(\\w+)?", "(?i)(ab)|(cd)|(ef)", "()(a)?",
+	"^(?:(a)|b)(?:(c)|d)(?:(e)|f)(?:(g)|h)(?:(i)|j)(?:(k)|l)(?:(m)|n)(?:(o)|p)(?:(q)|r)(?:(s)|t)$",
+}
+var capValues = []string{"abc", "abcde", "a", "b", "c", "y", "xy", "ac", "bc", "abcdefghijk", "0123456789", "0123456789X", "acegikmoqs", "bdfhjlnprt", "adehilmpqt",
+	"ab-12-cd", "ab--cd", "ab--", "aabb", "bb", "CD", "ef", "bdfhj", "", "zzz", "ABC-9-"}
+
+func (r *runner) genCapSeq(rng *rand.Rand) {
+	cfg := r.cfg
+	step := func() stepJSON {
+		if rng.Intn(5) == 0 {
+			return stepJSON{Op: "pm", ArgHex: hx(pick(rng, []string{"a b c", "ab", "abc bc c", "x y", "k"})), ValueHex: hx(pick(rng, []string{"abcabc", "xbc", "cab abc", "zzz", "ABCABCABCABC", ""}))}
+		}
+		return stepJSON{Op: "rx", ArgHex: hx(pick(rng, capPatterns)), ValueHex: hx(pick(rng, capValues))}
+	}
+	// fixed family: fill TX.1..n first, then a pattern whose group does not participate
+	fill := []stepJSON{{Op: "rx", ArgHex: hx("^(.)(.)(.)(.)(.)(.)(.)(.)(.)(.)(.)?"), ValueHex: hx("0123456789")}, {Op: "rx", ArgHex: hx("(a)(b)(c)"), ValueHex: hx("abc")},
+		{Op: "pm", ArgHex: hx("a b c"), ValueHex: hx("abcabc")}}
+	for _, f := range fill {
+		for _, p := range capPatterns {
+			for _, v := range []string{"b", "y", "ac", "c", "abc", "bdfhjlnprt", "ab--", "zzz"} {
+				if cfg.Thorough() || rng.Intn(3) == 0 {
+					r.pf = rng.Intn(2) == 0
+					r.runCapSeq([]stepJSON{f, {Op: "rx", ArgHex: hx(p), ValueHex: hx(v)}})
+				}
+			}
+		}
+	}
+	for i := 0; i < cfg.Pick(500, 8000); i++ {
+		n := 2 + rng.Intn(3)
+		st := make([]stepJSON, n)
+		for j := range st {
+			st[j] = step()
+		}
+		r.pf = i%2 == 0
+		r.runCapSeq(st)
+	}
+	// rule level: 2-3 rules in one WAF; not every rule has `capture`, some are negated, some are
+	// operators that never capture
+	ruleText := func() string {
+		switch rng.Intn(8) {
+		case 0:
+			return "@pm " + pick(rng, []string{"a b c", "abc bc", "k"})
+		case 1:
+			return pick(rng, []string{"@streq abc", "@contains b", "@unconditionalMatch", "@eq 0"})
+		case 2:
+			return "!@rx " + pick(rng, capPatterns)
+		case 3:
+			return "@rx " + pick(rng, capPatterns)
+		}
+		return pick(rng, capPatterns)
+	}
+	for i := 0; i < cfg.Pick(350, 5000); i++ {
+		n := 2 + rng.Intn(2)
+		st := make([]stepJSON, n)
+		for j := range st {
+			t := ruleText()
+			if strings.HasPrefix(t, "^") && rng.Intn(2) == 0 { // avoid nothing: bare patterns are fine
+				t = "@rx " + t
+			}
+			st[j] = stepJSON{ArgHex: hx(t), ValueHex: hx(pick(rng, capValues)), Capture: rng.Intn(5) > 0}
+		}
+		r.pf = i%2 == 0
+		r.runRuleSeq(st)
+	}
+	r.pf = false
 }
